@@ -79,7 +79,21 @@ def _call(fn):
         return "Error:" + type(exc).__name__
 
 
+def store_view(store, tmpl):
+    """What this (long-lived) store object serves: name -> content id."""
+    inv = {v: k for k, v in tmpl.etags.items()}
+    rn = {v: k for k, v in NAMES.items()}
+    out = {}
+    for (n, ct, et) in store.iter_with_etag():
+        # the etag the listing reports and the bytes get_file serves must belong together
+        data = b"".join(store.get_file(n, ct, et).content)
+        out[rn.get(n, n)] = inv.get(et, 0)
+    return out
+
+
 def make_op(store, tmpl, op):
+    if op["t"] == "read":
+        return lambda: _call(lambda: store_view(store, tmpl))
     name = NAMES[op["n"]]
     cond = tmpl.etags[op["cond"]] if op["cond"] else None
     if op["t"] == "put":
@@ -109,7 +123,7 @@ def read_final(path, tmpl):
     return out, ok, fsck, clean
 
 
-def run_schedule(tmpl, opa, opb, plan, shared=True):
+def run_schedule(tmpl, opa, opb, plan, shared=True, opc=None):
     """plan: list of (worker, nsteps) with nsteps None = run to completion.
     Returns the observation record for LinTrace."""
     path = tmpl.fresh()
@@ -135,6 +149,19 @@ def run_schedule(tmpl, opa, opb, plan, shared=True):
         for w in ("A", "B"):
             r = sc.results.get(w)
             res[w] = r[1] if r and r[0] == "ok" else ("Error:" + type(r[1]).__name__ if r else "Error:stuck")
+        # optional follow-up operation, executed after both writers have finished, on the
+        # first writer's store object: probes state the overlapped operations left behind
+        mid = None
+        if opc is not None:
+            mid = read_final(path, tmpl)[0]      # the state the overlapped pair left behind
+            res["C"] = make_op(sa, tmpl, opc)()
+        # what the long-lived store objects serve afterwards (must be the state on disk)
+        views = []
+        for st in ([sa] if shared else [sa, sb]):
+            try:
+                views.append(store_view(st, tmpl))
+            except Exception as exc:
+                views.append({"error": 0})
         final, opens, fsck, clean = read_final(path, tmpl)
         # window: was some writer overtaken (the other one executed a mutating gate) while it was
         # still in its unprotected check phase - i.e. after its first gate and before it holds
@@ -150,7 +177,10 @@ def run_schedule(tmpl, opa, opb, plan, shared=True):
             if any(x == o and g in MUT for (x, g) in sc.trace[idx[0]:lk]):
                 phase = "check"
         return {"kind": tmpl.kind, "shared": shared, "init": tmpl.init,
-                "ops": {"A": opa, "B": opb}, "res": res, "final": final,
+                "ops": {"A": opa, "B": opb, "C": opc if opc is not None else {"t": "none", "n": "", "b": 0, "cond": 0}},
+                "res": res if "C" in res else dict(res, C="none"), "final": final,
+                "mid": mid if mid is not None else final,
+                "views_ok": all(v == final for v in views),
                 "err": {w: res[w].startswith("Error:") for w in res}, "phase": phase,
                 "opens": opens, "fsck": fsck, "clean": clean, "stuck": sc.stuck,
                 "sched": [[w, g] for (w, g) in sc.trace],
